@@ -3,6 +3,7 @@ import torch
 import xitorch
 from xitorch.integrate import mcquad
 
+from harness.paramgraph import param_graph_claims
 from harness.base import grads, zero_if_none
 
 PROPERTY = "C16"
@@ -134,6 +135,29 @@ def mh_two(cx, nsamples=2, nburnout=1):
     return "ok"
 
 
+def param_graph(cx, kind="derived", where="f", nsamples=2, nburnout=1):
+    """parameters of f / log p that are functions of each other or the same tensor passed twice (mhcustom, deterministic step)"""
+    s = cx.scalar("s")
+    delta = cx.scalar("delta")
+    x0 = cx.sym("x0", (1,))
+    k = cx.sym("k", (), requires_grad=True)
+    c = cx.sym("c", (), requires_grad=True)
+    g = cx.sym("g", (1,))
+
+    def step(x, *pparams):
+        return x * s + delta
+    if where == "f":
+        call = lambda a, b: (g * mcquad(lambda x, a_, b_: a_ * b_ * x * x + a_ * x, lambda x, c_: _logp(x, c_), x0,
+                                        fparams=(a, b), pparams=(c,), method="mhcustom", nsamples=nsamples,
+                                        nburnout=nburnout, custom_step=step)).sum()
+    else:
+        call = lambda a, b: (g * mcquad(lambda x, c_: c_ * x * x, lambda x, a_, b_: -(a_ * b_ * x * x).sum() + (a_ * x).sum(), x0,
+                                        fparams=(c,), pparams=(a, b), method="mhcustom", nsamples=nsamples,
+                                        nburnout=nburnout, custom_step=step)).sum()
+    param_graph_claims(cx, call, k, kind, others=[c])
+    return "ok"
+
+
 def configs(tier):
     cfgs = []
 
@@ -145,6 +169,9 @@ def configs(tier):
     add("mhcustom/ns2_nb3/tensor", custom, nsamples=2, nburnout=3)
     add("mhcustom/ns3_nb1/tuple", custom, nsamples=3, nburnout=1, out="tuple")
     add("mhcustom/ns2_nb2/2nd", custom, nsamples=2, nburnout=2, second=True)
+    for where in ("f", "logp"):
+        for kind in ("derived", "duplicate"):
+            add("param_graph/%s/%s" % (where, kind), param_graph, kind=kind, where=where)
     add("mh/ns2_nb1", mh_two, nsamples=2, nburnout=1, opts={"max_paths": 300})
     if tier == "thorough":
         add("mhcustom/ns4_nb3/tuple", custom, nsamples=4, nburnout=3, out="tuple", opts={"budget_s": 900})
